@@ -198,6 +198,14 @@ SHORT = {
  "C19-i": ("&group of the range variable: only the last group is validated", "out-of-limit group that is not the last one"),
  "C19-j": ("lower bound on group totals dropped: a group without resource units passes", "group with an empty resource list"),
  "C20-i": ("submit request carried by value: the announced manifest aliases the last queued request", ">=2 submissions queued during the fetch, the last one rejected"),
+ "C04-k": ("CloseBid pauses the group after the payment close instead of before it", "provider's close-bid is the first transaction to discover the overdraft: paused group under a closed deployment"),
+ "C08-k": ("all-of auditors need to cover the required attributes only jointly", ">=2 all-of auditors, each attesting a part of the required attributes"),
+ "C09-k": ("VerifyPeerCertificate's working variables shared by all handshakes", "an expired certificate's handshake waits for the chain while another client completes a handshake"),
+ "C12-k": ("node carried over unadjusted when the last unit examined did not fit there", "two nodes, a two-service group straddling them, then a reserve into the forgotten capacity"),
+ "C13-k": ("order context cancelled before the clean-up at shutdown: close-bid never submitted", "shutdown while a bid is placed, transaction client honours the context"),
+ "C14-k": ("manifest for a lease whose manager is stopping starts a second manager", "manifest after teardown finished but before the service collected the old manager (slow health check)"),
+ "C16-k": ("OnGroupClosed closes the payment before the lease", "pause-group is the first transaction to discover the overdraft: lease-closed emitted twice"),
+ "C20-k": ("validated manifest appended only if its version is not in the history", "update to v2, back to v1, re-submission of the v1 manifest: v2 announced"),
  "C20-j": ("watchdog signals completion to the service before ShutdownCompleted: deadlock with stop()", "submission while the watchdog's close-bid is in progress"),
 }
 
